@@ -44,7 +44,7 @@ ASSUMPTIONS = [
     "for accepted foreign payloads one decode-encode pass must reach a fixed point that decodes to the same value",
 ]
 MUST_REACH = {"serializer_keys_covered": 180, "int_raw_checks": 100000, "byte_payload_checks": 1000,
-              "fuzz_accepted": 50, "literal_checks": 10000, "block_api_checks": 500, "block_member_assignments": 50, "block_pretty_assignments": 100, "block_values_scribbled": 40, "tz_covered": 3,
+              "fuzz_accepted": 50, "literal_checks": 10000, "literal_checks_through_library_printer": 5000, "block_api_checks": 500, "block_member_assignments": 50, "block_pretty_assignments": 100, "block_values_scribbled": 40, "tz_covered": 3,
               "negative_raws_on_signed_flag_fields": 10, "context_values": 20}
 
 
@@ -145,25 +145,36 @@ def check_literal(ctx, key, label, ser, block, d, expect_bytes_or_raw, wit):
         ctx.count("literal_skipped_nonfinite")
         return
     ctx.count("literal_checks")
-    try:
-        lit = ast.literal_eval(repr(d))
-    except Exception as e:
-        ctx.violation("pod-repr-not-a-literal", "repr() of the plain-data form does not evaluate as a literal",
-                      dict(wit, pod_value=repr(d)[:300], exc=repr(e)[:200]))
-        return
-    if gen_spec.canon(lit) != gen_spec.canon(d):
-        ctx.violation("pod-repr-differs", "repr() of the plain-data form evaluates to a different value",
-                      dict(wit, pod_value=repr(d)[:300], literal=repr(lit)[:300]))
-        return
-    try:
-        back = ser.serialize(block, lit)
-    except Exception as e:
-        ctx.violation("pod-literal-not-encodable", "the evaluated plain-data literal cannot be encoded",
-                      dict(wit, pod_value=repr(d)[:300], exc=repr(e)[:200]))
-        return
-    if back != expect_bytes_or_raw:
-        ctx.violation("pod-literal-encodes-differently", "the evaluated plain-data literal encodes to different bytes",
-                      dict(wit, pod_value=repr(d)[:300], got=repr(back)[:200]))
+    # the two printed forms in use: repr() and the library's own printer (the one the textual message form is made with)
+    from hippolyzer.lib.base.helpers import HippoPrettyPrinter
+    for how, printed in (("repr", repr), ("printer", HippoPrettyPrinter(width=100).pformat)):
+        try:
+            text = printed(d)
+            lit = ast.literal_eval(text)
+        except Exception as e:
+            ctx.violation("pod-repr-not-a-literal" + ("" if how == "repr" else ":" + how),
+                          "the printed plain-data form does not evaluate as a literal",
+                          dict(wit, how=how, pod_value=repr(d)[:300], exc=repr(e)[:200]))
+            return
+        if gen_spec.canon(lit) != gen_spec.canon(d):
+            ctx.violation("pod-repr-differs" + ("" if how == "repr" else ":" + how),
+                          "the printed plain-data form evaluates to a different value",
+                          dict(wit, how=how, pod_value=repr(d)[:300], printed=text[:300], literal=repr(lit)[:300]))
+            return
+        try:
+            back = ser.serialize(block, lit)
+        except Exception as e:
+            ctx.violation("pod-literal-not-encodable" + ("" if how == "repr" else ":" + how),
+                          "the evaluated plain-data literal cannot be encoded",
+                          dict(wit, how=how, pod_value=repr(d)[:300], exc=repr(e)[:200]))
+            return
+        if back != expect_bytes_or_raw:
+            ctx.violation("pod-literal-encodes-differently" + ("" if how == "repr" else ":" + how),
+                          "the evaluated plain-data literal encodes to different bytes",
+                          dict(wit, how=how, pod_value=repr(d)[:300], got=repr(back)[:200]))
+            return
+        if how == "printer":
+            ctx.count("literal_checks_through_library_printer")
 
 
 def ser_name(ser):
